@@ -444,9 +444,16 @@ func (s *Sched) note(t *task) {
 	}
 	s.res.Hash = h
 	if !s.cfg.NoTrace && len(s.res.Trace) < s.cfg.TraceCap {
-		s.res.Trace = append(s.res.Trace, t.idString()+"@"+t.site)
+		e := t.idString() + "@" + t.site
+		if traceTime {
+			e += "#" + time.Since(s.start).String()
+		}
+		s.res.Trace = append(s.res.Trace, e)
 	}
 }
+
+// traceTime (VERIF_TRACE_TIME) appends the virtual time to every trace entry: a debugging aid for divergences.
+var traceTime = os.Getenv("VERIF_TRACE_TIME") != ""
 
 var stallDurations = []time.Duration{time.Nanosecond, time.Millisecond, 100 * time.Millisecond, time.Second, 10 * time.Second, time.Minute}
 
